@@ -39,7 +39,7 @@ static void run() {
     fast = true;
 #endif
     if (!fast) {
-        vp::stats().rule = "enum: all 2^24 (state, octet) pairs of the update step; known check value; random buffers <= 4 KiB split at every position; buffers of 2^8/2^15/2^16/2^17 (+-1,2) octets and words; word buffers of every length 0..64 from random states";
+        vp::stats().rule = "enum: all 2^24 (state, octet) pairs of the update step; known check value; random buffers <= 4 KiB split at every position; buffers of 2^8/2^15/2^16/2^17 (+-1,2) octets and words; word buffers of every length 0..64 from random states; every 4-octet buffer over {state low, state high, 00, ff, low^1} from every state; messages followed by their own checksum and zero padding";
         vp::stats().exhaustive = true;
         // (1) all (state, octet) pairs, dealt to shards by state
         for (uint32_t st = a.shard; st < 65536; st += a.nshards)
@@ -100,6 +100,32 @@ static void run() {
                 vp::nontrivial(vp::fnv(buf.data(), buf.size(), st ^ 0x5555));
                 check_buffer(st, buf.data(), buf.size(), words, true);
             }
+        // (4) buffers related to the starting value: every 4-octet buffer over {state low octet, state high octet, 00, ff, low^1} from every state (a message
+        //     that carries its own checksum, zero padding behind it, ... are the inputs of every verifier), and messages followed by their own checksum and padding
+        for (uint32_t st = a.shard; st < 65536; st += a.nshards) {
+            const uint8_t al[5] = {(uint8_t)st, (uint8_t)(st >> 8), 0x00, 0xff, (uint8_t)(st ^ 1)};
+            for (unsigned code = 0; code < 625; code++) {
+                uint8_t b[4]; unsigned c = code; for (int i = 0; i < 4; i++) { b[i] = al[c % 5]; c /= 5; }
+                uint16_t want = ref::crc16_arc((uint16_t)st, b, 4);
+                if (ufw_crc16_arc((uint16_t)st, b, 4) != want) { vp::fail("state-related:value", vp::fmt("crc(%04x, %s) = %04x, reference %04x", st, vp::hex(b, 4).c_str(), ufw_crc16_arc((uint16_t)st, b, 4), want), ser((uint16_t)st, b, 4, 0)); break; }
+            }
+            vp::count(625); vp::nontrivial(0x7000000ull + st);
+        }
+        vp::cls("state-related-4-octet-buffers", (65536ull / a.nshards) * 625ull);
+        for (size_t i = 0; i < (a.thorough() ? 20000u : 2000u); i++) {
+            size_t n = (size_t)rng.range(0, 40), pad = (size_t)rng.range(0, 9);
+            std::vector<uint8_t> buf(n);
+            for (auto &b : buf) b = rng.byte();
+            uint16_t st = rng.chance(1, 3) ? 0 : (uint16_t)rng.next();
+            uint16_t c = ref::crc16_arc(st, buf.data(), n);
+            bool le = rng.chance(2, 3);
+            buf.push_back((uint8_t)(le ? c : c >> 8)); buf.push_back((uint8_t)(le ? c >> 8 : c));
+            for (size_t k = 0; k < pad; k++) buf.push_back(0x00);
+            vp::count(); vp::cls("message-followed-by-own-checksum-and-padding");
+            vp::nontrivial(vp::fnv(buf.data(), buf.size(), st ^ 0x1234));
+            check_buffer(st, buf.data(), buf.size(), n, true);
+            if (le && ufw_crc16_arc(st, buf.data(), n + 2) != 0) vp::fail("residue", "the checksum of a message followed by its own checksum (low octet first) is not zero", ser(st, buf.data(), buf.size(), n));
+        }
     } else {
         // thorough only, unsanitized library: all one- and two-octet buffers from every state (2^16 * (2^8 + 2^16))
         vp::stats().rule = "enum(fast): all one- and two-octet buffers from every starting state (2^32 + 2^24 calls), value comparison only";
